@@ -659,3 +659,72 @@ def c07_with1(X, ctx, rest, after):
 
 
 ORACLES.update({"c07_call": c07_call, "c07_sub": c07_sub, "c07_with": c07_with, "c07_with1": c07_with1})
+
+
+# ------------------------------------------------------------------ C16
+def _normalised_methods(path):
+    tree = ast.parse(open(path, encoding="utf-8").read())
+    out = {}
+    for n in tree.body:
+        if isinstance(n, ast.ClassDef):
+            for m in n.body:
+                if isinstance(m, (ast.FunctionDef, ast.AsyncFunctionDef)):
+                    m.returns = None
+                    deco = [ast.dump(d) for d in m.decorator_list]
+                    out[f"{n.name}.{m.name}"] = ast.dump(m)
+                    out[f"{n.name}.{m.name}@decorators"] = repr(deco)
+                elif isinstance(m, ast.Assign):
+                    out[f"{n.name}.{ast.unparse(m.targets[0])}="] = ast.dump(m.value)
+                elif isinstance(m, ast.AnnAssign) and m.value is not None:
+                    out[f"{n.name}.{ast.unparse(m.target)}="] = ast.dump(m.value)
+    return out
+
+
+def regenerate(repo, which, out_path, hashseed=None):
+    """run the documented generation step of the working tree into out_path (outside the repo); returns (rc, stderr)"""
+    import os
+    import subprocess
+    env = {**os.environ, "PYTHONPATH": repo, "PYTHONDONTWRITEBYTECODE": "1"}
+    if hashseed is not None:
+        env["PYTHONHASHSEED"] = str(hashseed)
+    if which == "xonsh":
+        cmd = [sys.executable, "tasks/generator.py", "-g", "tasks/xonsh.gram", "-o", out_path]
+    else:
+        cmd = [sys.executable, "-m", "pegen", "pegen/metagrammar.gram", "-o", out_path, "-q"]
+    p = subprocess.run(cmd, cwd=repo, env=env, capture_output=True, text=True, timeout=300)
+    return p.returncode, p.stderr[-500:]
+
+
+def c16(X, which="xonsh", repo="/repo"):
+    import os
+    import shutil
+    import tempfile
+    d = tempfile.mkdtemp(prefix="c16_")
+    try:
+        out = os.path.join(d, "gen.py")
+        rc, err = regenerate(repo, which, out)
+        if rc != 0 or not os.path.exists(out):
+            return {"kind": "generation-failed", "observed": err, "expected": "generator runs on the working tree's grammar"}
+        shipped = os.path.join(repo, "peg_parser/parser.py" if which == "xonsh" else "pegen/grammar_parser.py")
+        a, b = _normalised_methods(out), _normalised_methods(shipped)
+        missing = sorted(set(a) - set(b))
+        extra = sorted(set(b) - set(a))
+        diff = sorted(k for k in a if k in b and a[k] != b[k])
+        if missing or extra or diff:
+            return {"kind": "shipped-differs-from-generated", "observed": {"only_generated": missing[:6], "only_shipped": extra[:6], "different": diff[:10]},
+                    "expected": "same methods, bodies and keyword tables"}
+        # determinism across hash seeds
+        base = open(out, encoding="utf-8").read()
+        for hs in (0, 1, 12345):
+            out2 = os.path.join(d, f"gen{hs}.py")
+            rc, err = regenerate(repo, which, out2, hashseed=hs)
+            if rc != 0:
+                return {"kind": "generation-failed", "observed": err, "expected": f"generator runs with PYTHONHASHSEED={hs}"}
+            if open(out2, encoding="utf-8").read() != base:
+                return {"kind": "generation-not-deterministic", "observed": f"output differs with PYTHONHASHSEED={hs}", "expected": "identical output"}
+    finally:
+        shutil.rmtree(d, ignore_errors=True)
+    return None
+
+
+ORACLES.update({"c16": c16})
